@@ -7,7 +7,7 @@
    interceptors) in which the repair fixes/c01_retrybatch.patch is applied ([c_fix_rb c = true]; the other
    case is c01_refuted_retrybatch). *)
 From Coq Require Import List ZArith Bool.
-From SV Require Import Producer.Msg Producer.Actors Producer.Compose Producer.Weights Producer.Global
+From SV Require Import Producer.Msg Producer.Actors Producer.Compose Producer.Weights Producer.Local Producer.Global
                        Producer.Shape Producer.Conservation Producer.Shutdown Producer.Progress Producer.Markers Producer.Examples
                        Producer.Liveness Producer.Reading Producer.Complete
                        Gen.GoInt Gen.DecTypes Gen.DecTypes2 Gen.DecC01 Producer.DecTie.
@@ -134,6 +134,19 @@ Theorem c01_chasers_in_transit : forall c sched, c_fix_ic c = true -> marker_siz
   (forall k st h, ppst k (run c sched) = Some st -> l_chaser (get_level h (p_levels st)) = true -> transit c k h (run c sched)).
 Proof. exact no_lost_chaser. Qed.
 Print Assumptions c01_chasers_in_transit.
+
+(* flushRetryBuffers reaches the ground whatever the leader lookups answer (all may fail): it stops at level 0 or at a
+   level whose own chaser is still expected (in transit by c01_chasers_in_transit); the levels it passed are empty and
+   expect no chaser, so a failed lookup at an intermediate level strands nothing (the behaviour seeded C12-8 removed) *)
+Theorem c01_flush_reaches_ground : forall c t p h hasbp leader lv stamp ls,
+  has_crash (snd (flush c t p h hasbp leader lv stamp ls)) = false ->
+  let r := fst (flush c t p h hasbp leader lv stamp ls) in
+  let h' := fst (fst (fst r)) in let lv' := snd r in
+  (h' < h)%nat /\ (h' = 0%nat \/ l_chaser (get_level h' lv') = true) /\
+  (forall i, (h' <= i < h)%nat -> l_buf (get_level i lv') = []) /\
+  (forall i, (h' < i < h)%nat -> l_chaser (get_level i lv') = false).
+Proof. exact flush_reaches_ground. Qed.
+Print Assumptions c01_flush_reaches_ground.
 
 (* a broker worker in its run loop that holds messages can hand them to its bridge now, or its timer is armed
    and it can right after the timer fired.  Excluded class: Flush.Bytes/Messages > 0 without Flush.Frequency
